@@ -745,9 +745,16 @@ impl<'s> Tokenizer<'s> {
         ws_start: Whitespace,
     ) -> Result<ControlFlow<(Token<'s>, Span)>, Error> {
         let old_loc = self.loc();
-        let mut ptr = 0;
-        while let Some(block) = memstr(&self.rest_bytes()[ptr..], self.block_start().as_bytes()) {
-            ptr += block + self.block_start().len();
+        let mut search_from = 0;
+        while let Some(block) = memstr(
+            &self.rest_bytes()[search_from..],
+            self.block_start().as_bytes(),
+        ) {
+            // the next candidate can begin one byte later: a block start such
+            // as `<<` also occurs inside `<<<`
+            let candidate = search_from + block;
+            search_from = candidate + 1;
+            let ptr = candidate + self.block_start().len();
             if let Some((endraw, ws_next)) =
                 skip_basic_tag(&self.rest()[ptr..], "endraw", self.block_end(), true)
             {
